@@ -11,7 +11,7 @@
 (* independent, so the rest of the trace is still checked): the verdict is *)
 (* printed and counted, and the logged effect becomes the next state.      *)
 (***************************************************************************)
-EXTENDS Bid, Arith, Json, IOUtils
+EXTENDS Bid, Ops, Json, IOUtils
 
 Events == ndJsonDeserialize(IOEnv.VERIF_TRACE)
 
@@ -54,11 +54,92 @@ QuoRemVerdict(e) ==
   IN IF v1 \notin OkSet THEN v1 \o ":quo" ELSE IF v2 \notin OkSet THEN v2 \o ":rem"
      ELSE IF v1 = "ok+" \/ v2 = "ok+" THEN "ok+" ELSE "ok"
 
+
+B2S(b) == IF b THEN "ok" ELSE "reject"
+FlipSign(b) == <<(b[1] + 128) % 256>> \o SubSeq(b, 2, 16)
+ClearSign(b) == <<b[1] % 128>> \o SubSeq(b, 2, 16)
+Panicked(e) == Has(e, "panic")
+
+\* results that must be a given value (ResEq), or a propagated NaN operand
+ValueVerdict(exp, e, rb) ==
+  LET r == Decode(rb) IN
+  IF exp.k = "nan" THEN B2S(r.k = "nan" /\ (exp.src = "x" => rb = e.x) /\ (exp.src = "y" => rb = e.y)
+                               /\ (exp.src = "any" => (rb = e.x \/ rb = e.y)))
+  ELSE B2S(ResEq(exp, r))
+
+CmpVerdict(e) ==
+  LET x == Decode(e.x)  y == Decode(e.y)
+      s == IF e.op = "Cmp" THEN CmpSem(x, y) ELSE CmpAbsSem(x, y)
+  IN B2S(e.lt = s[1] /\ e.eq = s[2] /\ e.gt = s[3] /\ e.le = (s[1] \/ s[2]) /\ e.ge = (s[3] \/ s[2]))
+
+QuantVerdict(e) ==
+  LET x == Decode(e.x)
+      s == CASE e.op = "Round" -> RoundSem(x, e.dp, EffMode(e))
+             [] e.op = "Ceil" -> CeilSem(x, e.dp)
+             [] e.op = "Floor" -> FloorSem(x, e.dp)
+             [] e.op = "PkgRound" -> RoundSem(x, 0, RNA)
+             [] e.op = "PkgTrunc" -> RoundSem(x, 0, RTZ)
+             [] e.op = "PkgCeil" -> CeilSem(x, 0)
+             [] e.op = "PkgFloor" -> FloorSem(x, 0)
+      r == Decode(e.r)
+      dp == IF Has(e, "dp") THEN e.dp ELSE 0
+  IN IF s.t = "same" THEN B2S(e.r = e.x /\ e.rr = e.x)                      \* NaN / Inf pass through bit for bit
+     ELSE IF ~ResEq(s.v, r) THEN "reject"
+     ELSE IF ~ResEq(r, Decode(e.rr)) THEN "reject:idempotence"
+     ELSE IF r.neg # x.neg THEN "reject:sign"
+     ELSE IF r.k = "fin" /\ ~WithinQuantum(x, r, dp) THEN "reject:quantum"
+     ELSE IF CmpMag(r.c, r.q, x.c, x.q) # 0 \/ r.k # "fin" THEN "ok+" ELSE "ok"
+
+ScaleVerdict(e) ==
+  CASE e.op = "New"   -> Agrees(NewExact([neg |-> e.sig.neg, l |-> e.sig.l], e.exp), Decode(e.r), mode)
+    [] e.op = "Ldexp" -> LET x == Decode(e.x) IN
+                         IF x.k = "nan" THEN B2S(Decode(e.r).k = "nan")
+                         ELSE Agrees(LdexpExact(x, e.exp), Decode(e.r), mode)
+    [] e.op = "Frexp" -> LET x == Decode(e.x) IN
+                         IF x.k # "fin" \/ IsZero(x) THEN B2S(e.r = e.x /\ e.e = 0 /\ e.back = e.x)
+                         ELSE B2S(FrexpOK(x, Decode(e.r), e.e) /\ ResEq(Decode(e.back), x))
+
+CanonVerdict(e) ==
+  LET x == Decode(e.x)  c == CanonV(x)  r == Decode(e.r) IN
+  IF e.r # Encode(c) THEN "reject"
+  ELSE IF e.rr # e.r THEN "reject:idempotence"
+  ELSE IF x.k = "fin" /\ ~IsCanon(x, r) THEN "specfault:canon"
+  ELSE "ok"
+
+BinaryVerdict(e) ==
+  CASE e.op = "MarshalBinary" -> B2S(e.err = "" /\ e.bs = e.x)                   \* the 16 bytes are the BID words, big-endian
+    [] e.op = "UnmarshalBinary" -> IF Len(e.bs) = 16 THEN B2S(e.err = "" /\ e.r = e.bs)
+                                   ELSE B2S(e.err # "" /\ e.r = e.prev)          \* rejected, receiver untouched
+
+MiscVerdict(e) ==
+  LET x == Decode(e.x) IN
+  CASE e.op = "Neg" -> B2S(e.r = FlipSign(e.x))
+    [] e.op = "Abs" -> B2S(e.r = ClearSign(e.x))
+    [] e.op \in {"Min", "Max"} -> ValueVerdict(MinMaxSem(x, Decode(e.y), e.op = "Max"), e, e.r)
+    [] e.op = "Equal" -> B2S(e.b = EqualSem(x, Decode(e.y)))
+    [] e.op = "Compare" -> B2S(e.n = CompareSem(x, Decode(e.y)))
+    [] e.op = "IsZero" -> B2S(e.b = IsZero(x))
+    [] e.op = "IsNaN" -> B2S(e.b = IsNaN(x))
+    [] e.op = "IsInf" -> B2S(e.b = (IsInf(x) /\ (e.sgn = 0 \/ (e.sgn > 0) = ~x.neg)))
+    [] e.op = "Signbit" -> B2S(e.b = x.neg)
+    [] e.op = "Sign" -> IF IsNaN(x) THEN B2S(Panicked(e)) ELSE B2S(~Panicked(e) /\ e.n = SignSem(x))
+
+\* documented panics only: anything else that panicked is rejected before its own verdict is consulted
+PanicAllowed(e) ==
+  \/ e.op \in {"Sign", "Payload", "Int", "Rat", "Float", "Int32", "Int64", "Uint32", "Uint64", "MustParse"}
+
 RawVerdict(e) ==
   IF ~Frame(e) THEN "reject:frame-mode"
+  ELSE IF Panicked(e) /\ ~PanicAllowed(e) THEN "reject:panic"
   ELSE CASE e.op = "SetMode" -> "ok"
          [] e.op \in {"Add", "Sub", "Mul", "Quo"} -> Bin2Verdict(e)
          [] e.op = "QuoRem" -> QuoRemVerdict(e)
+         [] e.op \in {"Cmp", "CmpAbs"} -> CmpVerdict(e)
+         [] e.op \in {"Round", "Ceil", "Floor", "PkgRound", "PkgTrunc", "PkgCeil", "PkgFloor"} -> QuantVerdict(e)
+         [] e.op \in {"New", "Ldexp", "Frexp"} -> ScaleVerdict(e)
+         [] e.op = "Canonical" -> CanonVerdict(e)
+         [] e.op \in {"MarshalBinary", "UnmarshalBinary"} -> BinaryVerdict(e)
+         [] e.op \in {"Neg", "Abs", "Min", "Max", "Equal", "Compare", "IsZero", "IsNaN", "IsInf", "Signbit", "Sign"} -> MiscVerdict(e)
          [] OTHER -> "specfault:unknown-op"
 
 Verdict(e) == RawVerdict(e)
